@@ -130,7 +130,7 @@ func H_C14_derivedset_hist() {
 
 // H_C14_counter_hist: a Counter equals the number of monitored inputs that currently satisfy its condition.
 //
-//verif:h prop=C14 p.writes=3/4 cover=count,unmonitor runs=5000000 timeout=250/2400
+//verif:h prop=C14 p.writes=3/4 cover=count runs=5000000 timeout=250/2400
 func H_C14_counter_hist() {
 	in := [2]Variable[uint8]{NewVariable[uint8](), NewVariable[uint8]()}
 	c := NewCounter[uint8](func(v uint8) bool { return v&1 == 1 })
